@@ -87,13 +87,13 @@ class MaskedAutoregressive(AbstractBijection):
         self.cond_shape = None if cond_dim is None else (cond_dim,)
 
     def transform(self, x, condition=None):
-        nn_input = x if condition is None else jnp.hstack((x, condition))
+        nn_input = x if self.cond_shape is None else jnp.hstack((x, condition))
         transformer_params = self.masked_autoregressive_mlp(nn_input)
         transformer = self._flat_params_to_transformer(transformer_params)
         return transformer.transform(x)
 
     def transform_and_log_det(self, x, condition=None):
-        nn_input = x if condition is None else jnp.hstack((x, condition))
+        nn_input = x if self.cond_shape is None else jnp.hstack((x, condition))
         transformer_params = self.masked_autoregressive_mlp(nn_input)
         transformer = self._flat_params_to_transformer(transformer_params)
         return transformer.transform_and_log_det(x)
@@ -107,7 +107,7 @@ class MaskedAutoregressive(AbstractBijection):
     def inv_scan_fn(self, init, _, condition):
         """One 'step' in computing the inverse."""
         y, rank = init
-        nn_input = y if condition is None else jnp.hstack((y, condition))
+        nn_input = y if self.cond_shape is None else jnp.hstack((y, condition))
         transformer_params = self.masked_autoregressive_mlp(nn_input)
         transformer = self._flat_params_to_transformer(transformer_params)
         x = transformer.inverse(y)
